@@ -527,3 +527,21 @@ macro_rules! for_cast_types {
     };
 }
 pub mod fmt_table;
+
+/// bnum-typed shift amounts must come from the same digit family as the shifted type (C17).
+pub trait AmtTypes {
+    type UA;
+    type IA;
+    type UB;
+    type IB;
+}
+macro_rules! amt_types {
+    ($BU:ident, $BI:ident) => {
+        impl<const N: usize> AmtTypes for $BU<N> { type UA = $BU<1>; type IA = $BI<2>; type UB = $BU<5>; type IB = $BI<1>; }
+        impl<const N: usize> AmtTypes for $BI<N> { type UA = $BU<1>; type IA = $BI<2>; type UB = $BU<5>; type IB = $BI<1>; }
+    };
+}
+amt_types!(BUint, BInt);
+amt_types!(BUintD32, BIntD32);
+amt_types!(BUintD16, BIntD16);
+amt_types!(BUintD8, BIntD8);
